@@ -38,6 +38,7 @@ RULE = (
     ' Round 11: number spellings with exponents no number type holds, at every level; every mutated content also with warnings as errors (all modules).'
     ' Round 12: `file_name`; specials missing-dangling-symlink / missing-concurrent-loads / missing-other-path; a pass under `python -O`.'
     ' Round 13: specials other-path-native/legacy-unwritable-own.'
+    ' Round 14: `loops` kind (one gateway object under 1-3 event loops in turn, overlapping loads in each).'
 )
 ASSUMPTIONS = ["real files in a scratch directory; running as root, so permission faults are represented by the directory case only"]
 SHRINK_STRINGS = ("data",)
